@@ -62,6 +62,13 @@ type Sched struct {
 
 var cur *Sched
 
+// FreeSwitchCost is the cost of choosing a non-default thread at a point
+// where the running thread cannot continue (it blocked or finished). 0 gives
+// classic preemption bounding (only preemptions cost); 1 gives deviation
+// bounding (every departure from the default schedule costs), which keeps the
+// levels polynomial for harnesses with many threads.
+var FreeSwitchCost = 0
+
 type abortExec struct{}
 
 // Fail records a property violation found by a harness assertion and aborts the execution.
@@ -221,6 +228,8 @@ func (s *Sched) loop() {
 				labels[i] = t.name
 				if i > 0 && curEnabled {
 					costs[i] = 1
+				} else if i > 0 {
+					costs[i] = FreeSwitchCost
 				}
 			}
 			pick = s.choose(labels, costs)
